@@ -1074,7 +1074,8 @@ class Stack(list):
         return True
 
     def op_numequalverify(self):
-        self.op_numequal()
+        if not self.op_numequal():
+            return False
         return self.op_verify()
 
     def op_numnotequal(self):
